@@ -139,6 +139,7 @@ def parseOp (n : Names) : Nat → List String → Option (Op × List String)
     | "load" :: rest => body rest .load
     | "dhook" :: o :: rest => body rest (.dhook (n.valOf o))
     | "verb" :: _v :: rest => body rest (.verb 1)
+    | "vital" :: w :: rest => body rest (.vital (w == "master"))
     | "heartbeat" :: o :: c :: rest => body rest (.heartBeat (n.valOf o) (n.valOf c))
     -- one cycle of backend() (sugar, see `injectbe`):
     -- process_user_command: command_giver = the user (restored on the normal path), apply process_input (1 argument) -> t::run
@@ -146,6 +147,8 @@ def parseOp (n : Names) : Nat → List String → Option (Op × List String)
       body rest (fun p => .withCg (n.valOf u) (Prog.ofList [.call (.other (n.valOf u)) 1 1 (Prog.ofList [.call (.other (n.valOf o)) 0 0 p])]))
     -- call_heart_beat: heart_beat () { run (); } of an object without commands enabled
     | "behb" :: o :: rest => body rest (fun p => .heartBeat (n.valOf o) 0 (Prog.ofList [.call .local_ 0 0 p]))
+    -- … of an object WITH commands enabled: it is the command giver of its heart beat
+    | "behbc" :: o :: rest => body rest (fun p => .heartBeat (n.valOf o) (n.valOf o) (Prog.ofList [.call .local_ 0 0 p]))
     -- look_for_objects_to_swap: its own recovery point; reset_object: command_giver = 0 around apply (reset, 0 arguments)
     | "bereset" :: _o :: rest => body rest (fun p => .withCg 0 (Prog.ofList [.safeApply 0 0 (Prog.ofList [.call .local_ 0 0 p])]))
     -- look_for_objects_to_swap: push_number; apply (clean_up, 1 argument)
@@ -178,7 +181,10 @@ def snapshot (n : Names) (m : M) : String :=
   s!"pc={if m.r.pc == 0 then "null" else "set"} fio={m.r.fio} vio={m.r.vio} ctx={m.ctxs.length} " ++
   -- cgs: depth of the command_giver save stack (simulate.c); its only user (notify_no_command) calls back through
   -- safe_call_function_pointer, so no longjmp passes it (tie: `Gen.C05.cgStackUsersCallBackSafely`)
-  s!"ld={m.loadDepth} rd={n.nameOf m.restrictDestruct} cgs=0 qv={if m.lastVerb == 0 then "0" else "set"}"
+  s!"ld={m.loadDepth} rd={n.nameOf m.restrictDestruct} cgs=0 qv={if m.lastVerb == 0 then "0" else "set"} " ++
+  -- names of the two vital objects (0 = the empty string; the values are opaque: only "as at start-up" or not)
+  s!"mn={if m.masterName == 1 then "ok" else if m.masterName == 0 then "blank" else "other"} " ++
+  s!"sn={if m.simulName == 2 then "ok" else if m.simulName == 0 then "blank" else "other"}"
 
 /-- the fixed probe evaluation (harness/mudlib/c05/probe.c): its output depends on command_giver and on the
     side state only -/
